@@ -368,4 +368,35 @@ theorem loopinv_runAll (g : G) (as : List Action) (hg : Good g) (hp : PInv g) (h
     simp only [runAll]
     exact ih _ (good_react g a hg) (pinv_react g a hg.linv hp) (loopinv_react g a hg hp h)
 
+/-! the wait policy never changes -/
+
+theorem wait_jstep {g : G} {perm : List Nat} {j : Joiner} {g' : G} {o : List Obs}
+    (hs : JStep g perm j g' o) : g'.wait = g.wait := by
+  cases hs with
+  | crSweep _ _ => exact (jrel_deliverCancels g _).1
+  | finSweep _ _ _ => exact (jrel_deliverCancels g _).1
+  | pop _ _ => unfold G.joinerPop; cases g.doneq <;> rfl
+  | crDone _ _ _ _ => rfl
+  | nowait _ _ _ => rfl
+  | nothingLeft _ _ _ _ _ => rfl
+  | park _ _ _ _ _ => rfl
+  | acquire _ _ _ _ _ _ => rfl
+  | finExit _ _ _ => rfl
+  | finClear _ _ _ _ => rfl
+
+theorem wait_runJoiner (perm : List Nat) : ∀ (fuel : Nat) (g : G), g.fixed = true →
+    (g.runJoiner perm fuel).1.wait = g.wait
+  | 0, _, _ => rfl
+  | fuel + 1, g, hfix => by
+    unfold G.runJoiner
+    cases hs : g.joinerStep perm with
+    | none => rfl
+    | some r =>
+      obtain ⟨g1, o1⟩ := r
+      obtain ⟨j, _, _, hstep⟩ := joinerStep_inv hfix hs
+      have hfix1 : g1.fixed = true := by
+        have := (tstep_jstep hstep).fixed_eq; simp only [G.core] at this; rw [this, hfix]
+      simp only []
+      rw [wait_runJoiner perm fuel g1 hfix1, wait_jstep hstep]
+
 end Aiorpcx.C09
